@@ -224,6 +224,47 @@ pub fn run_scenario<B: Sym, W: Write>(run: u64, ops: &[Value], nslots: usize, pr
                     }
                 }
             }
+            "clone" | "clone_from" => {
+                // C09 for coded containers: d becomes a copy of s (clone_from into whatever d holds)
+                let (d, sidx) = (op["d"].as_u64().unwrap() as usize - 1, op["s"].as_u64().unwrap() as usize - 1);
+                if d == sidx || slots[sidx].dead || (name == "clone_from" && slots[d].dead) {
+                    continue;
+                }
+                let res = if name == "clone" {
+                    guarded(|| slots[sidx].c.clone()).map(Some)
+                } else {
+                    let (a, b) = if d < sidx {
+                        let (x, y) = slots.split_at_mut(sidx);
+                        (&mut x[d], &y[0])
+                    } else {
+                        let (x, y) = slots.split_at_mut(d);
+                        (&mut y[0], &x[sidx])
+                    };
+                    guarded(|| a.c.clone_from(&b.c)).map(|_| None)
+                };
+                match res {
+                    Err(m) => {
+                        slots[d].dead = true;
+                        writeln!(out, "{}", json!({"ev": "copy", "kind": name, "run": run, "seq": seq, "d": d + 1, "s": sidx + 1, "panic": true, "msg": m, "same": false})).unwrap();
+                    }
+                    Ok(c) => {
+                        if let Some(c) = c {
+                            slots[d].c = c;
+                        }
+                        slots[d].ids = slots[sidx].ids.clone();
+                        slots[d].first_reads = slots[sidx].first_reads.clone();
+                        slots[d].dead = false;
+                        // the copy reads like the source at every issued index
+                        let mut same = true;
+                        for k in 0..slots[d].ids.len() {
+                            if read_item(&slots[d].c, slots[d].ids[k]) != slots[d].first_reads[k] {
+                                same = false;
+                            }
+                        }
+                        writeln!(out, "{}", json!({"ev": "copy", "kind": name, "run": run, "seq": seq, "d": d + 1, "s": sidx + 1, "panic": false, "same": same})).unwrap();
+                    }
+                }
+            }
             "clear" => {
                 let s = op["s"].as_u64().unwrap() as usize - 1;
                 if slots[s].dead {
@@ -508,6 +549,19 @@ pub fn cmd_gen(seed: u64, count: usize, out: &str, ty: &str, small: bool) {
                 let v: Vec<u64> = if syms.is_empty() { vec![] } else { (0..len).map(|_| syms[rng.gen_range(0..syms.len())]).collect() };
                 ops.push(json!({"op": "push", "s": 1, "v": v}));
             }
+            // copies of coded containers (C09): clone, and clone_from into a container coded differently;
+            // both must answer the same continuation like the source
+            ops.push(json!({"op": "clone", "d": 1, "s": 3}));
+            ops.push(json!({"op": "push", "s": 1, "v": v0}));
+            ops.push(json!({"op": "push", "s": 3, "v": v0}));
+            ops.push(json!({"op": "clone_from", "d": 2, "s": 3}));
+            for _ in 0..rng.gen_range(1..4) {
+                let len = rng.gen_range(0..9);
+                let v: Vec<u64> = if syms.is_empty() { vec![] } else { (0..len).map(|_| syms[rng.gen_range(0..syms.len())]).collect() };
+                ops.push(json!({"op": "push", "s": 2, "v": v}));
+                ops.push(json!({"op": "push", "s": 3, "v": v}));
+            }
+            ops.push(json!({"op": "merge", "d": 2, "srcs": [3]}));
             // a coded container whose ONLY input is a read item of another coded container: the generation
             // built from it must know exactly that item's symbols
             ops.push(json!({"op": "merge", "d": 1, "srcs": [3]}));
@@ -525,4 +579,124 @@ pub fn cmd_gen(seed: u64, count: usize, out: &str, ty: &str, small: bool) {
         }
         writeln!(f, "{}", json!({"nslots": 3, "ops": ops})).unwrap();
     }
+}
+
+// ---------------------------------------------------------------------------------------------
+// Coded regions nested in a fan-out region: ColumnsRegion<HuffmanContainer<u8>> -> TraceCodedColumns.tla
+
+type CH = flatcontainer::ColumnsRegion<HuffmanContainer<u8>>;
+
+fn read_row(r: &CH, idx: usize) -> Value {
+    match guarded(|| {
+        let row = r.index(idx);
+        let cells: Vec<Value> = row.iter().map(|w| json_of(&w.into_owned())).collect();
+        let by_get: Vec<Value> = (0..row.len()).map(|j| json_of(&row.get(j).into_owned())).collect();
+        if cells != by_get {
+            return json!({"INCONSISTENT": "iter vs get"});
+        }
+        Value::Array(cells)
+    }) {
+        Ok(v) => v,
+        Err(m) => json!({"PANIC": m}),
+    }
+}
+
+/// `huffcols-run --seed N --runs K --out trace.ndjson`
+pub fn cmd_cols(seed: u64, runs: usize, out: &str) {
+    quiet_panics();
+    let mut rng = StdRng::seed_from_u64(seed);
+    let mut w = std::io::BufWriter::new(std::fs::File::create(out).expect("create"));
+    for run in 1..=runs as u64 {
+        let nslots = 4;
+        let mut slots: Vec<(CH, Vec<usize>, Vec<Value>, bool)> = (0..nslots).map(|_| (CH::default(), vec![], vec![], false)).collect();
+        writeln!(w, "{}", json!({"ev": "reset", "run": run, "nslots": nslots})).unwrap();
+        let nsym = rng.gen_range(1..5u8);
+        let cell = |rng: &mut StdRng, extra: u8| -> Vec<u8> { (0..rng.gen_range(0..4)).map(|_| rng.gen_range(0..nsym + extra)).collect() };
+        let row = |rng: &mut StdRng, width: usize, extra: u8| -> Vec<Vec<u8>> { (0..width).map(|_| cell(rng, extra)).collect() };
+        let steps = rng.gen_range(6..16);
+        // sources of different widths (slot 1 wide, slot 2 narrow, slot 3 wide with other symbols)
+        let widths = [rng.gen_range(2..5usize), rng.gen_range(0..2usize), rng.gen_range(2..5usize), 0];
+        for step in 0..steps {
+            let r = rng.gen_range(0..100);
+            if step < 6 || r < 55 {
+                let s = if step < 6 { step % 3 } else { rng.gen_range(0..nslots) };
+                if slots[s].3 {
+                    continue;
+                }
+                let width = if step < 6 { widths[s] } else { rng.gen_range(0..5) };
+                // symbols of slot 3 are shifted so that only it knows them in the high columns
+                let extra = if rng.gen_bool(0.2) { 1 } else { 0 };
+                let mut v = row(&mut rng, width, extra);
+                if s == 2 {
+                    for c in v.iter_mut() {
+                        for x in c.iter_mut() {
+                            *x += 10;
+                        }
+                    }
+                }
+                let res = {
+                    let reg = &mut slots[s].0;
+                    guarded(|| reg.push(&v))
+                };
+                let vj: Vec<Value> = v.iter().map(|c| json_of(c)).collect();
+                match res {
+                    Err(m) => {
+                        slots[s].3 = true;
+                        writeln!(w, "{}", json!({"ev": "cols_push", "run": run, "s": s + 1, "v": vj, "panic": true, "msg": m.chars().take(80).collect::<String>(), "read": [], "read_err": "", "stable": true})).unwrap();
+                    }
+                    Ok(idx) => {
+                        let rd = read_row(&slots[s].0, idx);
+                        let mut stable = true;
+                        for k in 0..slots[s].1.len() {
+                            if read_row(&slots[s].0, slots[s].1[k]) != slots[s].2[k] {
+                                stable = false;
+                            }
+                        }
+                        slots[s].1.push(idx);
+                        slots[s].2.push(rd.clone());
+                        let (rv, re) = if rd.is_array() { (rd, String::new()) } else { (json!([]), rd.to_string()) };
+                        writeln!(w, "{}", json!({"ev": "cols_push", "run": run, "s": s + 1, "v": vj, "panic": false, "read": rv, "read_err": re, "stable": stable})).unwrap();
+                    }
+                }
+            } else if r < 85 {
+                // merge into a slot from a random ordered selection of sources
+                let d = rng.gen_range(0..nslots);
+                let mut srcs: Vec<usize> = (0..nslots).filter(|x| !slots[*x].3 && rng.gen_bool(0.7)).collect();
+                for i in (1..srcs.len()).rev() {
+                    srcs.swap(i, rng.gen_range(0..=i));
+                }
+                let m = {
+                    let refs: Vec<&CH> = srcs.iter().map(|&x| &slots[x].0).collect();
+                    guarded(|| CH::merge_regions(refs.as_slice().iter().map(|r| *r)))
+                };
+                let sj: Vec<usize> = srcs.iter().map(|x| x + 1).collect();
+                match m {
+                    Ok(m) => {
+                        slots[d] = (m, vec![], vec![], false);
+                        writeln!(w, "{}", json!({"ev": "cols_merge", "run": run, "d": d + 1, "srcs": sj, "panic": false})).unwrap();
+                    }
+                    Err(msg) => {
+                        slots[d].3 = true;
+                        writeln!(w, "{}", json!({"ev": "cols_merge", "run": run, "d": d + 1, "srcs": sj, "panic": true, "msg": msg})).unwrap();
+                    }
+                }
+            } else {
+                let s = rng.gen_range(0..nslots);
+                if slots[s].3 {
+                    continue;
+                }
+                let res = {
+                    let reg = &mut slots[s].0;
+                    guarded(|| reg.clear())
+                };
+                slots[s].1.clear();
+                slots[s].2.clear();
+                writeln!(w, "{}", json!({"ev": "cols_clear", "run": run, "s": s + 1, "panic": res.is_err()})).unwrap();
+                if res.is_err() {
+                    slots[s].3 = true;
+                }
+            }
+        }
+    }
+    w.flush().unwrap();
 }
